@@ -3,7 +3,7 @@
    Characters are code points: 'd'=100 'o'=111 'x'=120 'X'=88, ' '=32, '0'=48, '-'=45. *)
 From Coq Require Import ZArith List Bool.
 From CyVerif Require Import Lib.CInt Model.M_IntFmt Proof.P_IntFmtDigits Proof.P_IntFmt Proof.P_IntFmtUtf8
-  Gen.Gen_IntFmt.
+  Gen.Gen_IntFmt Model.M_FStr Proof.P_FStr.
 Import ListNotations.
 Open Scope Z_scope.
 
@@ -178,3 +178,89 @@ Example C18_nonvacuous :
   cint_to_unicode 8 true (-128) 0 32 111 = Text [45;50;48;48] /\
   py_format_int 18446744073709551615 0 32 88 = [70;70;70;70;70;70;70;70;70;70;70;70;70;70;70;70].
 Proof. unfold in_range. vm_compute. intuition congruence. Qed.
+
+(* ------------------------------------------------------------------------------------------------
+   f-string assembly (Model/M_FStr.v): an f-string is a list of parts, literal | placeholder(operand,
+   conversion, spec).  The compiler rewrites the list (ConstantFolding: constant operands, empty specs,
+   literal merging, 0/1/2-part shapes; type analysis: plain formatting of a str name; FinalOptimizePhase:
+   repeated formatted values become CloneNodes of the first one, keyed by (name, c_format_spec,
+   format_spec node, conversion or s)).
+   For EVERY part list, every formatting function fmt of the running interpreter (the text of
+   format(conv(x), spec)), every nested-spec valuation and every assignment of static classes to the
+   variables -- given only: an integer constant formats as its digits, a plainly formatted string
+   literal is itself, and format(x, "") = str(x) for values of builtin types -- the rewritten list
+   produces CPython's text, and the sequence of formatting calls on generic objects (the calls that
+   run user code: __format__ / __repr__ / __str__) is unchanged. *)
+Theorem C18_fstring_rewrites_preserve_text_and_calls :
+  forall (fmt : fop -> conv -> text -> text) (dyn : nat -> text) (cls : nat -> vclass),
+    (forall t c, fmt (FInt t) c nil = t) ->
+    (forall t c, plain c = true -> fmt (FStr t) c nil = t) ->
+    (forall v, cls v <> KObj -> fmt (FVar v) CvNone nil = fmt (FVar v) CvS nil) ->
+    forall ps, Forall (wf_part cls) ps ->
+      shape_text fmt dyn (optimise kflags_real ps) = ref_text fmt dyn ps /\
+      shape_events dyn (optimise kflags_real ps) = ref_events dyn ps.
+Proof. exact optimise_correct. Qed.
+Print Assumptions C18_fstring_rewrites_preserve_text_and_calls.
+
+(* the same for a nested format spec inside a value of a de-duplicated f-string (not visited by the late pass) *)
+Theorem C18_fstring_nested_spec_rewrites_preserve_text_and_calls :
+  forall (fmt : fop -> conv -> text -> text) (dyn : nat -> text) (cls : nat -> vclass),
+    (forall t c, fmt (FInt t) c nil = t) ->
+    (forall t c, plain c = true -> fmt (FStr t) c nil = t) ->
+    (forall v, cls v <> KObj -> fmt (FVar v) CvNone nil = fmt (FVar v) CvS nil) ->
+    forall ps, Forall (wf_part cls) ps ->
+      shape_text fmt dyn (optimise_inner ps) = ref_text fmt dyn ps /\
+      shape_events dyn (optimise_inner ps) = ref_events dyn ps.
+Proof. exact optimise_inner_correct. Qed.
+Print Assumptions C18_fstring_nested_spec_rewrites_preserve_text_and_calls.
+
+(* the de-duplication key determines the text: two different positions with equal keys format the
+   same variable with the same conversion (up to none = s) and no spec *)
+Theorem C18_fstring_dedup_key_determines_text :
+  forall (fmt : fop -> conv -> text -> text) (dyn : nat -> text) (cls : nat -> vclass),
+    (forall v, cls v <> KObj -> fmt (FVar v) CvNone nil = fmt (FVar v) CvS nil) ->
+    forall i j n m k k', i <> j -> wf_node cls n -> wf_node cls m ->
+      node_key kflags_real i n = Some k -> node_key kflags_real j m = Some k' -> key_eqb k k' = true ->
+      nt0 fmt dyn n = nt0 fmt dyn m.
+Proof. exact key_sound. Qed.
+Print Assumptions C18_fstring_dedup_key_determines_text.
+
+(* literal merging leaves no empty literal and no two adjacent literals *)
+Theorem C18_fstring_literals_merged : forall ps, merged (fold ps).
+Proof. intro ps. exact (merge_merged (map fold_part ps)). Qed.
+Print Assumptions C18_fstring_literals_merged.
+
+(* the key WITHOUT the conversion character is wrong: f"{s!r}={s}|" with a str argument repeats the repr
+   (all hypotheses of the theorem above hold for the witness) *)
+Theorem C18_fstring_key_without_conversion_refuted :
+  Forall (wf_part w_cls_str) w_parts_conv /\
+  (forall t c, w_fmt (FInt t) c nil = t) /\ (forall t c, plain c = true -> w_fmt (FStr t) c nil = t) /\
+  (forall v, w_cls_str v <> KObj -> w_fmt (FVar v) CvNone nil = w_fmt (FVar v) CvS nil) /\
+  shape_text w_fmt w_dyn (optimise (mk_kflags false true) w_parts_conv) <> ref_text w_fmt w_dyn w_parts_conv.
+Proof. exact key_without_conversion_refuted. Qed.
+Print Assumptions C18_fstring_key_without_conversion_refuted.
+
+(* de-duplicating generic objects is wrong: a __format__ call disappears *)
+Theorem C18_fstring_object_dedup_refuted :
+  Forall (wf_part w_cls_obj) w_parts_obj /\
+  shape_events w_dyn (optimise (mk_kflags true false) w_parts_obj) <> ref_events w_dyn w_parts_obj.
+Proof. exact object_dedup_refuted. Qed.
+Print Assumptions C18_fstring_object_dedup_refuted.
+
+(* FINDING padded_c_format_in_join_kind_ignored: JoinedStrNode takes every formatted C number whose
+   c_format_spec is not exactly c for ASCII; a padded 3c / 03c value is not.  Full statement (false for
+   the code as it is): every character of the joined text is <= max_char (join_kind ...).  Witness
+   f"{v:3c}|{v:3c}|x" with v = 0x20AC: the result is allocated for ASCII. *)
+Theorem C18_fstring_join_kind_padded_c_refuted :
+  exists c, In c (concat w_texts_kind) /\ N.ltb (max_char (join_kind false w_nodes_kind w_texts_kind)) c = true.
+Proof. exact padded_c_kind_refuted. Qed.
+Print Assumptions C18_fstring_join_kind_padded_c_refuted.
+
+Example C18_fstring_nonvacuous :
+  optimise kflags_real
+    [PLit [97%N]; PPh (OStr nil) CvNone SNone; PLit [98%N]; PPh (OVar 0 KStrOpt) CvNone SNone;
+     PPh (OVar 0 KStrOpt) CvR (SLit nil false); PPh (OVar 0 KStrOpt) CvS SNone; PPh (OVar 0 KStrOpt) CvR SNone;
+     PPh (OVar 1 KObj) CvNone SNone; PPh (OVar 1 KObj) CvNone SNone] =
+  ShJoin [NLit [97%N; 98%N]; NUni 0; NFmt (OVar 0 KStrOpt) CvR None SNone; NClone 1; NClone 2;
+          NFmt (OVar 1 KObj) CvNone None SNone; NFmt (OVar 1 KObj) CvNone None SNone].
+Proof. reflexivity. Qed.
